@@ -74,6 +74,35 @@ def collect(pid, wt, name):
     return 0 if ok else 1
 
 
+def reconfirm(name, newpatch=None):
+    """re-confirm a stored seed against /repo's current HEAD (after fix commits moved the code), optionally with a
+    rebased patch: demo passes without, fails with, the baseline tests still pass"""
+    dest = os.path.join(VERIF, 'seeded', name)
+    meta = json.load(open(os.path.join(dest, 'meta.json')))
+    patch = newpatch or os.path.join(dest, 'patch.diff')
+    fresh = f'/tmp/wtc-{name}'
+    sh(f'git -C /repo worktree remove --force {fresh}')
+    rc, out = sh(f'git -C /repo worktree add -q {fresh} HEAD')
+    try:
+        shutil.copy(os.path.join(dest, 'demo.py'), os.path.join(fresh, 'SEED_DEMO.py'))
+        rc0, out0 = sh(f'{PY} SEED_DEMO.py', cwd=fresh, timeout=900)
+        rca, outa = sh(f'git apply {patch}', cwd=fresh)
+        assert rca == 0, outa
+        rc1, out1 = sh(f'{PY} SEED_DEMO.py', cwd=fresh, timeout=900)
+        missing = sorted(baseline_pass() - run_suite(fresh))
+        head = sh('git -C /repo log --format=%h -1')[1].strip()
+        ok = rc0 == 0 and rc1 != 0 and not missing
+        meta.setdefault('reconfirmed', []).append({'repo_head': head, 'demo_exit_without_change': rc0, 'demo_exit_with_change': rc1,
+                                                   'n_missing': len(missing), 'rebased_patch': bool(newpatch), 'ok': ok})
+        print(name, 'without', rc0, 'with', rc1, 'missing', len(missing), 'OK' if ok else 'NOT-OK', out0[-300:] if rc0 else '')
+        if ok and newpatch:
+            shutil.copy(newpatch, os.path.join(dest, 'patch.diff'))
+    finally:
+        sh(f'git -C /repo worktree remove --force {fresh}')
+    json.dump(meta, open(os.path.join(dest, 'meta.json'), 'w'), indent=1)
+    return 0 if ok else 1
+
+
 def run(name, checks, tier='quick', inplace=False):
     """apply the seeded change and run the checks against it. Default: in a scratch worktree of /repo's HEAD that the
     checks are pointed at through VERIF_REPO (so that /repo itself stays usable meanwhile); --inplace applies it to
@@ -113,6 +142,8 @@ def run(name, checks, tier='quick', inplace=False):
 if __name__ == '__main__':
     if sys.argv[1] == 'collect':
         sys.exit(collect(*sys.argv[2:5]))
+    if sys.argv[1] == 'reconfirm':
+        sys.exit(reconfirm(*sys.argv[2:4]))
     if sys.argv[1] == 'run':
         tier = 'quick'
         args = sys.argv[3:]
